@@ -291,6 +291,12 @@ theorem step_norm (o : Ops) (s : MSt) (e : MEv) : (mstep o (normSt s) e).norm = 
             exact ⟨by simp only [this.1], this.2⟩
   | data t => simp only [mstep, Outcome.norm, handleData_norm]
   | ns p u => simp [mstep, Outcome.norm, normSt]
+  | cref r =>
+    simp only [mstep]
+    cases crefText r with
+    | some t => simp only [Outcome.norm, handleData_norm]
+    | none => rfl
+  | eref r => simp only [mstep, Outcome.norm, handleData_norm]
 
 /-- …and so does a whole run -/
 theorem run_norm (o : Ops) (evs : List MEv) : ∀ s t, normSt s = normSt t → (mrun o s evs).norm = (mrun o t evs).norm := by
